@@ -712,13 +712,18 @@ def _hyp_borel(ctx, p, q, a_s, b_s, z, **kwargs):
             cache[k] = t
             return t
         s = ctx.one
+        done = False
         for k in xrange(1, ctx.prec):
             t = term(k)
             s += t
             if abs(t) <= tol:
-                return s
+                done = True
+                break
     finally:
         ctx.prec = prec
+    if done:
+        # (the sum was formed with guard bits)
+        return +s
     if p <= q+3:
         contour = kwargs.get('contour')
         if not contour:
